@@ -253,8 +253,8 @@ func (g *seqGate) gate(ctx context.Context, kind, key string) Outcome {
 	if !g.enabled || g.budget <= 0 {
 		return Outcome{}
 	}
-	// 0..5 ok, 6 err_before, 7 err_after
-	switch g.tape.Choose(8) {
+	// the operation is "armed" (see the loop over the operations): 0..1 ok, 2 err_before, 3 err_after
+	switch g.tape.Choose(4) + 4 {
 	case 6:
 		g.budget--
 		g.fired["fault:store_err_before"]++
@@ -531,7 +531,13 @@ func runC12(s *Sim, sc *STScript) {
 		after := model.clone()
 		expectErr := after.apply(root, op)
 		firedBefore := g.fired["fault:store_err_before"] + g.fired["fault:store_err_after"]
-		g.enabled = true
+		// faults are spread over the whole history: an operation is armed with probability 1/4 (deletes of a whole task,
+		// the only multi-record transaction, with 1/2), and inside an armed operation every backend call may fail
+		arm := 4
+		if op.K == "del_task" {
+			arm = 2
+		}
+		g.enabled = g.budget > 0 && g.tape.Choose(arm) == 0
 		err := sys.exec(root, op)
 		g.enabled = false
 		faulted := g.fired["fault:store_err_before"]+g.fired["fault:store_err_after"] > firedBefore
